@@ -481,18 +481,62 @@ def c36(pid, tier):
 
 
 # ----------------------------------------------------------------------------- C11 (structural half)
+def c11_pi_chain(ir, prow, pis, rate=8):
+    """plonky2's verify_proof hashes the child's public inputs with hash_n_to_hash_no_pad (state 0, overwrite-absorb 8 at a time,
+    permute) and observes the digest in the challenger. Find that chain among the circuit's PoseidonGate rows by copy class
+    (constants compared by value). Returns ([row index of each permutation], reason)."""
+    cval = {c: v for c, v in ir.get("extra_constants", [])}
+
+    def same(a, b):
+        return a == b or (a in cval and b in cval and cval[a] == cval[b])
+
+    def is_zero(c):
+        return cval.get(c) == 0
+    chunks = [pis[i:i + rate] for i in range(0, len(pis), rate)]
+    cands = [(None, None)]
+    chain = []
+    for ci, ch in enumerate(chunks):
+        nxt = []
+        for (prev, _) in cands:
+            for ri, r in enumerate(prow):
+                w = r["w"]
+                if not is_zero(w[24]):          # swap flag must be the constant 0
+                    continue
+                if not all(same(a, b) for a, b in zip(w[:len(ch)], ch)):
+                    continue
+                rest = w[len(ch):12]
+                if prev is None:
+                    ok = all(is_zero(c) for c in rest)
+                else:
+                    ok = all(same(a, b) for a, b in zip(rest, prow[prev]["w"][12 + len(ch):24]))
+                if ok:
+                    nxt.append((ri, prev))
+        if not nxt:
+            return None, f"no PoseidonGate row absorbs public inputs {ci * rate}..{ci * rate + len(ch) - 1} of this slot in sponge position {ci}"
+        cands = nxt
+        chain.append(nxt[0][0])
+    last = prow[cands[0][0]]["w"][12:16]
+    used = any(any(c in r["w"][:12] for c in last) for ri, r in enumerate(prow) if ri != cands[0][0])
+    if not used:
+        return None, "the public-input digest of this slot is never absorbed by the challenger"
+    return chain, "ok"
+
+
+
 @register("C11")
 def c11(pid, tier):
     t0 = time.time()
     csxlib.build_emitter()
-    specs = ["privfull:1", "pubfull:1:1"] if tier == "quick" else ["privfull:1", "privfull:2", "pubfull:1:1", "pubfull:2:1"]
+    specs = ["privfull:2", "pubfull:2:1"] if tier == "quick" else ["privfull:1", "privfull:2", "privfull:3", "pubfull:1:1", "pubfull:2:1", "pubfull:2:2"]
     irs = csxlib.emit(pid, specs)
     S = Session(pid, [], verbose=True)
     replays, inconcl, stats = {}, [], {}
     for sp in specs:
         name = sp.replace(":", "_")
         ir = irs[name]
-        sx = symx.SymX(ir, inputs=[])
+        pg = [i for i, g in enumerate(ir["gate_types"]) if g.startswith("PoseidonGate")]
+        prow = [r for r in ir["rows"] if r["g"] in pg]
+        sx = symx.SymX(dict(ir, rows=[r for r in ir["rows"] if r["g"] not in pg]), inputs=[])
         vk = sx.named("vk")
         exp = ir["consts"]["vk_expected"]
         stats[name] = {"rows_total": ir["degree"], "constant_rows": len(ir["rows"]), "gate_row_histogram": dict(zip(ir["gate_types"], ir["row_histogram"])),
@@ -515,13 +559,36 @@ def c11(pid, tier):
             ok = bool(rp and rp[0].get("accepted"))
             replays[r.name] = (ok, path, r.name + "; " + ("the real private-batch circuit proved and verified a proof of an UNCONSTRAINED foreign circuit "
                                "(fee 20000 bps) with the foreign verifier key on the key wires" if ok else str(rp[0].get("detail"))))
+        # every child slot's public inputs are the ones its recursive verifier hashes into the transcript
+        slots = sorted(int(k.split("_")[1]) for k in ir["named"] if k.startswith("child_") and k.endswith("_pis"))
+        heads = []
+        for i in slots:
+            chain, why = c11_pi_chain(ir, prow, ir["named"][f"child_{i}_pis"])
+            nm = (f"{name}: slot {i}: a recursive-verifier instance absorbs exactly this slot's {len(ir['named'][f'child_{i}_pis'])} public inputs "
+                  f"(Poseidon sponge from the zero state, in order) and its digest enters the Fiat-Shamir transcript")
+            r = Result(nm, "holds", "HOLDS" if chain else "CEX", 0.0, detail=why, model={"slot": i} if not chain else None)
+            S.results.append(r)
+            print(f"  {nm:120s} {r.verdict:10s}" + ("" if chain else f"  ({why})"), flush=True)
+            if chain:
+                heads.append(chain[0])
+            else:
+                rp = csxlib.replay(pid, "privfull:1", [{"label": f"foreign proof in slot {i}", "mode": "slot_attack", "slot": min(i, 1)}])
+                path = csxlib.replay_path(pid)
+                json.dump({"query": nm, "why": why, "replay": rp}, open(path, "w"))
+                ok = bool(rp and rp[0].get("accepted"))
+                replays[nm] = (ok, path, nm + "; " + str(rp[0].get("detail") if rp else "no replay output"))
+        distinct = len(set(heads)) == len(heads)
+        S.results.append(Result(f"{name}: the {len(slots)} slots are bound to {len(slots)} pairwise distinct verifier instances", "holds",
+                                "HOLDS" if distinct and len(heads) == len(slots) else ("CEX" if not distinct else "UNKNOWN"), 0.0))
+        stats[name]["poseidon_rows"] = len(prow)
         if ir["consts"].get("refuses_wrong_pi_count") == [0]:
             inconcl.append(f"{name}: constructor accepted a child circuit with the wrong public-input count (concrete observation)")
     rc, known = finish(pid, S.results, replays, inconcl)
     csxlib.write_evidence(pid, tier, t0, [S], ["wormhole_aggregator::common::recursive::add_recursive_verifiers (real PrivateBatchCircuit::new / PublicBatchCircuit::new over the canonical child circuits)",
                                                "plonky2 CircuitBuilder::constant_verifier_data as built (ConstantGate rows + copy classes of the recorded key wires)"],
-                          {"circuits": f"{specs}: the full recursive circuits built by the real constructors (4096 rows); only the constant gates and the copy classes of the recorded key wires are encoded",
-                           "claim": "no witness can put a different verifier key on the wires that verify_proof reads",
+                          {"circuits": f"{specs}: the full recursive circuits built by the real constructors (4096 rows); the constants, the PoseidonGate rows, and the copy classes of the recorded key wires and of each slot's proof public inputs are encoded",
+                           "claim": "no witness can put a different verifier key on the wires that verify_proof reads; every child slot's public inputs are absorbed (in order, from the zero state) by its own "
+                                    "recursive-verifier instance whose digest enters the transcript (copy-class/constant-value matching over the PoseidonGate rows of the built circuit: a structural query, decided without the solver)",
                            "outside": "that a pinned key makes proofs of any other circuit unsatisfiable is FRI/PLONK recursive-verifier soundness (plonky2), assumed; larger N/M use the same single call; the PI-count refusal is a concrete observation, not a solver claim"},
                           W_ASSUME[1:2] + ["guarded recorder hook in add_recursive_verifiers names the key wires"],
                           extra={"encoding": stats, "states": sum(v["constant_rows"] for v in stats.values()), "transitions": sum(v["vk_wires"] for v in stats.values())},
